@@ -178,16 +178,16 @@ func c16export(rep lib.Report, sh *c16shared, p int) string {
 }
 
 type c16result struct {
-	Ops         int64              `json:"ops"`
-	Goroutines  int                `json:"goroutines"`
-	Procs       int                `json:"gomaxprocs"`
-	Mismatches  []string           `json:"mismatches"`
-	Overlap     map[string]int64   `json:"overlap"`
-	ColdFirst   int                `json:"cold_first_use_goroutines"`
-	SeqDigest   uint64             `json:"sequential_digest"`
-	KindCounts  map[string]int64   `json:"kind_counts"`
-	Distinct    int                `json:"distinct_ops"`
-	SampleHist  []string           `json:"sample_history"`
+	Ops        int64            `json:"ops"`
+	Goroutines int              `json:"goroutines"`
+	Procs      int              `json:"gomaxprocs"`
+	Mismatches []string         `json:"mismatches"`
+	Overlap    map[string]int64 `json:"overlap"`
+	ColdFirst  int              `json:"cold_first_use_goroutines"`
+	SeqDigest  uint64           `json:"sequential_digest"`
+	KindCounts map[string]int64 `json:"kind_counts"`
+	Distinct   int              `json:"distinct_ops"`
+	SampleHist []string         `json:"sample_history"`
 }
 
 // c16child: args = seed round G opsPerGoroutine.  GOMAXPROCS and GORACE come from the environment.
@@ -424,6 +424,9 @@ func runC16(r *Run) int {
 		cmd := exec.Command(monBin, "c16child", fmt.Sprint(r.Seed), fmt.Sprint(round), fmt.Sprint(c.G), fmt.Sprint(c.ops))
 		cmd.Env = append(os.Environ(), fmt.Sprintf("GOMAXPROCS=%d", c.procs),
 			"GORACE=halt_on_error=0 exitcode=0 log_path="+filepath.Join(r.OutDir, fmt.Sprintf("race-%s%d", tag, round)))
+		if round%3 == 1 {
+			cmd.Env = append(cmd.Env, "GOGC=5") // very frequent collections: pools are emptied, finalizers run
+		}
 		var stderr bytes.Buffer
 		cmd.Stderr = &stderr
 		out, err := cmd.Output()
